@@ -134,13 +134,26 @@ def run_single_impl(case):
             k2 = k2[0]          # bare (non-tuple) index form
         ind = LazyIndexer(ds, k1, transforms_for(case['transforms']))
         res['shape'], res['dtype'] = tuple(ind.shape), str(ind.dtype)
+        import copy
+        k2_before = copy.deepcopy(k2)
         out = ind[k2]
         res['out'] = np.asarray(out)
+        # the caller's index objects are not modified by the request
+        res['k2_mutated'] = repr(k2_before) != repr(k2)
         try:
             full = np.asarray(ind[:])
             res['full_shape'], res['full_dtype'] = full.shape, str(full.dtype)
+            res['full'] = full
         except Exception as e:   # noqa: BLE001
             res['full_err'] = type(e).__name__
+        # the same request on the same indexer object answers the same again (no state is left behind)
+        try:
+            again = np.asarray(ind[k2])
+            res['again_ok'] = again.shape == res['out'].shape and again.dtype == res['out'].dtype and \
+                np.array_equal(again, res['out'])
+        except Exception as e:   # noqa: BLE001
+            res['again_ok'] = False
+            res['again_err'] = type(e).__name__
     except Exception as e:   # noqa: BLE001
         res['err'] = type(e).__name__
         res['errmsg'] = str(e)[:100]
@@ -222,6 +235,14 @@ def judge_single(ctx, c, replies, impl):
             return f"shape property {impl['shape']} != shape of the full result {fexp.shape}"
         if impl.get('full_shape') is not None and impl['full_shape'] != fexp.shape:
             return f"indexer[:] has shape {impl['full_shape']} != {fexp.shape}"
+        if impl.get('full') is not None and not np.array_equal(impl['full'], apply_tf(c['transforms'], fexp)):
+            return ('indexer[:] requested after another request on the same indexer object differs from '
+                    'transform(array[first stage])')
+    if impl.get('again_ok') is False:
+        return ('the same request repeated on the same indexer object ' +
+                (f"raised {impl['again_err']}" if impl.get('again_err') else 'returned different data'))
+    if impl.get('k2_mutated'):
+        return "the request modified the caller's index arrays"
     m = ixgen.parse_sels(mrep)
     if isinstance(m, tuple):
         ctx.advise(f'mirror model predicts {mrep} but implementation answered: {single_lines(c)[0]}')
